@@ -55,10 +55,11 @@ def rnd_hist(rng, maxlen=8):
 
 
 # the closed witnesses of Props/C05 (replayed on the real code on every run): (api, legacy, check_now, S, H, b0, hist)
+# the first three are the regression cases of the fixed C05-F1/F2 and must be clean under both subsystems
 WITNESSES = [
-    ("dec", False, None, 5, None, False, [[1, "T"], [3, "A"]]),             # C05_new_cex_attr_update_cancels_hold (#13)
-    ("dec", False, None, 5, None, False, [[1, "T"], [3, "T"]]),             # C05_new_cex_latest_args (#14)
-    ("dec", False, None, None, 2, True, [[1, "A"], [5, "T"]]),              # C05_new_cex_skip_starts_false_period
+    ("dec", False, None, 5, None, False, [[1, "T"], [3, "A"]]),             # C05_new_regress_attr_update_cancels_hold (#13)
+    ("dec", False, None, 5, None, False, [[1, "T"], [3, "T"]]),             # C05_new_regress_latest_args (#14)
+    ("dec", False, None, None, 2, True, [[1, "A"], [5, "T"]]),              # C05_new_regress_skip_starts_false_period
     ("dec", False, True, None, 2, True, []),                                # C05_new_cex_checknow_holdfalse_no_start
     ("wu", False, None, 5, 10, True, [[1, "F"], [2, "T"]]),                 # C05_new_waituntil_cex_holdfalse_disabled
     ("wu", True, None, None, 0, False, [[2, "T"], [4, "F"], [6, "T"]]),     # C05_waituntil_cex
@@ -221,8 +222,7 @@ def run_impl(cases):
 
 
 # ------------------------------------------------------------------ the documented timeline, in Python
-FLAGS = ["skip_is_false", "latest_args", "no_start_with_hold_false", "wu_init_false_unrecorded",
-         "wu_hold_false_disabled"]
+FLAGS = ["no_start_with_hold_false", "wu_init_false_unrecorded", "wu_hold_false_disabled"]   # open findings only
 
 
 def timeline(p, flags=()):
@@ -256,15 +256,8 @@ def timeline(p, flags=()):
         if pending is not None and pending[0] + S <= t:
             runs.append([pending[0] + S, pending[1]])
             pending = None
-        if k == "A" and "skip_is_false" in flags:
-            k = "F"
-            skip = True
-        else:
-            skip = False
         if k not in "TF":
             continue
-        if "latest_args" in flags and pending is not None:
-            pending[1] = a
         if k == "T":
             if H is None:
                 candidate(t, a)
@@ -277,7 +270,6 @@ def timeline(p, flags=()):
             pending = None
             if H is not None and false_since is None:
                 false_since = t
-        del skip
     if pending is not None:
         runs.append([pending[0] + S, pending[1]])
     return runs[:1] if api == "wu" else runs
@@ -286,8 +278,8 @@ def timeline(p, flags=()):
 ALLOWED = {
     ("dec", True): [],
     ("wu", True): ["wu_init_false_unrecorded"],
-    ("dec", False): ["skip_is_false", "latest_args", "no_start_with_hold_false"],
-    ("wu", False): ["skip_is_false", "latest_args", "wu_hold_false_disabled"],
+    ("dec", False): ["no_start_with_hold_false"],
+    ("wu", False): ["wu_hold_false_disabled"],
 }
 
 
